@@ -1,3 +1,10 @@
-From Asynq Require Import Machine.
-Theorem C01_placeholder : True. Proof. exact I. Qed.
-Print Assumptions C01_placeholder.
+(* C01 — async execution returns what sequential evaluation would.  Proved so far: the value
+   delivered at a yield has the shape of the yielded structure with each future replaced by its
+   value (for every structure, any nesting).  The whole-program theorem (machine outcome = sequential
+   evaluation) is not yet proved; that part of C01 rests on the correspondence + monitors. *)
+From Asynq Require Import Prog proofs.ProgProofs.
+
+Theorem C01_yield_result_has_same_shape : forall (A : Type) (look : A -> outcome) (f : A -> val) (s : ystruct A),
+  (forall a, In a (leaves s) -> look a = Ok (f a)) -> unwrap look s = Ok (fill f s).
+Proof. exact (fun A look f s => unwrap_ok_fill look f s). Qed.
+Print Assumptions C01_yield_result_has_same_shape.
